@@ -98,6 +98,14 @@ Definition layout_bytes (cs : cmds) : list N :=
   | FR l => FRW.stream_bytes l
   | FW l => FWW.stream_bytes l
   end.
+(* every command well formed on its own (the position of a DataFragment is not looked at) *)
+Definition wfc (up : bool) (cs : cmds) : bool :=
+  match cs with
+  | CS l => forallb (CSW.wf_cmd up) l
+  | MC l => forallb (MCW.wf_cmd up) l
+  | FR l => forallb (FRW.wf_cmd up) l
+  | FW l => forallb (FWW.wf_cmd up) l
+  end.
 (* packages by number: 0 clocksync, 1 multicastsetup, 2 fragmentation, 3 firmwaremanagement *)
 Definition pkg_tag (pkg : N) : cmds :=
   match pkg with 0 => CS [] | 1 => MC [] | 2 => FR [] | _ => FW [] end.
@@ -111,7 +119,7 @@ Definition check (c : case) : N :=
              | _ => true
              end)
          (negb (is_panic o_enc)
-          && (if wf up cs then
+          && (if wfc up cs then
                 match o_enc with
                 | Ok bs => Nat.eqb (length bs) (fold_right Nat.add O o_sizes)
                            && bytes_eqb bs (layout_bytes cs)
